@@ -45,7 +45,7 @@ Section Open.
     intros Ha H63. split.
     - rewrite Forall_forall. intros r Hr. destruct (payload_records_bounds o wid roots bs npad r Ha Hr) as (H1 & _).
       unfold two63, two64 in *. lia.
-    - pose proof (sect_records_length wid bs (ld_size (blen (enc_header (Some roots) 1)))) as Hl.
+    - pose proof (sect_records_length wid bs (ld_size (blen (enc_header roots 1)))) as Hl.
       fold (payload_records wid roots bs) in Hl. pose proof (bs_count_bound roots bs npad).
       assert (two63 < 2 ^ 69) by (unfold two63; change 9223372036854775808 with (2 ^ 63); apply N.pow_lt_mono_r; lia). lia.
   Qed.
@@ -58,7 +58,7 @@ Section Open.
     - rewrite Forall_forall. intros r Hr.
       destruct (payload_records_bounds o wid roots bs npad r Ha Hr) as (H1 & H2 & H3).
       unfold two63, two64 in *. lia.
-    - pose proof (sect_records_length wid bs (ld_size (blen (enc_header (Some roots) 1)))) as Hl.
+    - pose proof (sect_records_length wid bs (ld_size (blen (enc_header roots 1)))) as Hl.
       fold (payload_records wid roots bs) in Hl. lia.
   Qed.
 
@@ -80,7 +80,7 @@ Section Open.
   Qed.
 
   (* the archive file and the limits it must respect to be opened with options o *)
-  Record file_ok (o : qopts) (ct : container) (roots : list bytes) (bs : list block) (npad : N) (file : bytes) : Prop := {
+  Record file_ok (o : qopts) (ct : container) (roots : option (list bytes)) (bs : list block) (npad : N) (file : bytes) : Prop := {
     fo_arch : arch_ok hdrdec o roots bs npad;
     fo_file : car_file ct roots bs npad = Some file;
     fo_len : blen file < two63;
@@ -93,7 +93,7 @@ Section Open.
             end }.
 
   (* the caller-supplied index: None, or GenerateIndex(payload) under options og *)
-  Definition supplied_ok (sup : option qopts) (si : option ridx) (roots : list bytes) (bs : list block) (npad : N) : Prop :=
+  Definition supplied_ok (sup : option qopts) (si : option ridx) (roots : option (list bytes)) (bs : list block) (npad : N) : Prop :=
     match sup with
     | None => si = None
     | Some og => arch_ok hdrdec og roots bs npad /\
@@ -103,7 +103,7 @@ Section Open.
   Lemma payload_pos roots bs npad : 0 < blen (payload_np roots bs npad).
   Proof.
     rewrite payload_np_split, !blen_app, blen_ld. unfold ld_size.
-    pose proof (uv_size_pos (blen (enc_header (Some roots) 1))). lia.
+    pose proof (uv_size_pos (blen (enc_header roots 1))). lia.
   Qed.
 
   Lemma supplied_correct og si roots bs npad :
@@ -268,7 +268,7 @@ Section Open.
   (* storage.OpenReadable *)
   Theorem sto_open_ok o ct roots bs npad file :
     file_ok o ct roots bs npad file ->
-    exists s, sto_open hdrdec o file = Ok s /\ opened s o (index_wid o ct None) roots bs npad /\ s_roots s = roots.
+    exists s, sto_open hdrdec o file = Ok s /\ opened s o (index_wid o ct None) roots bs npad /\ s_roots s = hdr_roots roots.
   Proof.
     intros Hfo. pose proof (file_payload_bound o ct roots bs npad file Hfo) as H63.
     destruct ct as [|chi clo dpad ipad emb].
